@@ -91,7 +91,7 @@ func c16Exhaustive(ctx *core.Ctx) {
 					i++
 					a := c16Args{Penv: penv, Files: map[string]c16Node{"f1": {Lines: f1}, "f2": {Lines: f2}}, Discard: i%2 == 0,
 						Services: []c16Service{{Name: "s", Environment: env,
-							EnvFiles: []c16EnvFile{{Path: "f1", Required: true}, {Path: "f2", Required: i%3 == 0}}}}}
+							EnvFiles: []c16EnvFile{{Path: "f1", Required: true}, {Path: "f2", Required: i%3 == 0}}}}, Extra: i%4 == 1}
 					ctx.Count("env-exhaustive-2files")
 					ctx.Add("c16.resolve", a)
 				}
@@ -125,7 +125,7 @@ func c16Exhaustive(ctx *core.Ctx) {
 	for x, s1 := range states {
 		for y, s2 := range states {
 			for z, s3 := range states {
-				a := c16Args{Penv: map[string]string{"B": "pB"}, Files: map[string]c16Node{}, Discard: (x+y+z)%2 == 0}
+				a := c16Args{Penv: map[string]string{"B": "pB"}, Files: map[string]c16Node{}, Discard: (x+y+z)%2 == 0, Extra: true}
 				svc := c16Service{Name: "s", Environment: [][2]*string{c16kv("C", nil)}}
 				a.Files["reg"] = c16Node{}
 				for n, s := range []st{s1, s2, s3} {
@@ -143,10 +143,12 @@ func c16Exhaustive(ctx *core.Ctx) {
 				}
 				a.Services = []c16Service{svc}
 				ctx.Count("file-states-exhaustive")
+				c16Features(ctx, a)
 				ctx.Add("c16.resolve", a)
 				if (x+y+z)%ctx.Pick(5, 1) == 0 {
 					ctx.Count("file-states-load")
 					la := a
+					la.Extra = false
 					la.Services = []c16Service{svc}
 					la.Services[0].YEnv = &c16YEnv{List: &[]c16Item{{K: "C"}}}
 					ctx.Add("c16.load", la)
@@ -324,6 +326,34 @@ func c16RandArgs(r *rand.Rand, malformed, forLoad bool) c16Args {
 				s.YEnv = y
 			}
 			s.Environment = nil
+			// the YAML form of `labels`: typed mapping (as before), sequence (`k=v`, bare `k`, a key twice, `=` inside the
+			// value), mapping with null values, empty sequence / mapping
+			switch r.Intn(4) {
+			case 0:
+				items := []c16Item{}
+				for _, kv := range s.Labels {
+					items = append(items, c16Item{K: *kv[0], V: kv[1]})
+					switch r.Intn(6) {
+					case 0:
+						items = append(items, c16Item{K: c16Keys[r.Intn(len(c16Keys))]}) // bare: the empty value
+					case 1:
+						items = append(items, c16Item{K: *kv[0], V: sp("again=" + *kv[0])}) // the key a second time
+					case 2:
+						items = append([]c16Item{{K: *kv[0]}}, items...) // … or first as a bare element
+					}
+				}
+				s.YLabels, s.Labels = &c16YEnv{List: &items}, nil
+			case 1:
+				m := [][2]*string{}
+				for _, kv := range s.Labels {
+					if r.Intn(3) == 0 {
+						m = append(m, c16kv(*kv[0], nil)) // `k:` null
+					} else {
+						m = append(m, kv)
+					}
+				}
+				s.YLabels, s.Labels = &c16YEnv{Map: &m}, nil
+			}
 		}
 		a.Services = append(a.Services, s)
 	}
@@ -332,6 +362,105 @@ func c16RandArgs(r *rand.Rand, malformed, forLoad bool) c16Args {
 		a.SkipResolveEnvironment = r.Intn(7) == 0
 	}
 	return a
+}
+
+// c16Features counts, per case of a correspondence stream, which branches of the model the input reaches
+// (Model/EnvLayers.lean: loadEnvFile / loadLabelFile / loadMappingFile / parseWithFormat / parseLines / resolveMWE /
+// resolveServiceLabels / collect).  A branch whose counter stays 0 in the evidence is a hole of the stream.
+func c16Features(ctx *core.Ctx, a c16Args) {
+	seen := map[string]bool{}
+	hit := func(f string) {
+		if !seen[f] {
+			seen[f] = true
+			ctx.Count("branch:" + f)
+		}
+	}
+	failing := 0
+	for _, s := range a.Services {
+		fails := false
+		for _, kv := range s.Environment {
+			switch _, inPenv := a.Penv[*kv[0]]; {
+			case kv[1] == nil && inPenv:
+				hit("resolveMWE:valueless-found")
+			case kv[1] == nil:
+				hit("resolveMWE:valueless-not-found")
+			default:
+				hit("resolveMWE:has-value")
+			}
+		}
+		listed := map[string]bool{}
+		for _, f := range s.EnvFiles {
+			if listed[f.Path] {
+				hit("loadEnvFiles:same-file-twice")
+			}
+			listed[f.Path] = true
+			nd, ok := a.Files[f.Path]
+			switch {
+			case (!ok || nd.NotDir) && f.Required:
+				hit("loadEnvFile:missing-required")
+				fails = true
+			case !ok && !f.Required:
+				hit("loadEnvFile:missing-optional-enoent")
+			case nd.NotDir && !f.Required:
+				hit("loadEnvFile:missing-optional-enotdir")
+			case f.Format != "" && f.Format != "c16kv":
+				hit("parseWithFormat:unregistered")
+				fails = true
+			case f.Format == "c16kv" && nd.Dir:
+				hit("parseWithFormat:registered-dir")
+				fails = true
+			case f.Format == "c16kv":
+				hit("parseWithFormat:registered-file")
+			case nd.Dir:
+				hit("loadMappingFile:dir")
+				fails = true
+			default:
+				hit("loadMappingFile:file")
+				for _, l := range nd.Lines {
+					switch {
+					case l.Bare != nil:
+						hit("parseLines:bare")
+					case l.K != nil:
+						hit("parseLines:assign")
+					default:
+						hit("parseLines:bad")
+						fails = true
+					}
+				}
+			}
+		}
+		if len(s.EnvFiles) == 0 {
+			hit("loadEnvFiles:none")
+		}
+		for _, f := range s.LabelFiles {
+			nd, ok := a.Files[f]
+			switch {
+			case !ok || nd.NotDir:
+				hit("loadLabelFile:missing")
+			case nd.Dir:
+				hit("loadLabelFile:dir")
+			default:
+				hit("loadLabelFile:file")
+			}
+		}
+		if len(s.Labels) == 0 && len(s.LabelFiles) == 0 {
+			hit("resolveServiceLabels:len0-branch")
+		} else if len(s.Labels) > 0 && len(s.LabelFiles) > 0 {
+			hit("resolveServiceLabels:labels-over-files")
+		}
+		if fails {
+			failing++
+		}
+	}
+	switch {
+	case failing > 1:
+		hit("collect:several-services-fail")
+	case failing == 1 && len(a.Services) > 1:
+		hit("collect:one-of-several-fails")
+	}
+	if a.Extra {
+		hit("withServicesEnabled")
+	}
 }
 
 func c16RandomResolve(ctx *core.Ctx) {
@@ -344,6 +473,11 @@ func c16RandomResolve(ctx *core.Ctx) {
 		} else {
 			ctx.Count("random-valid")
 		}
+		if i%3 == 0 {
+			a.Extra = true
+			ctx.Count("random-with-WithServicesEnabled")
+		}
+		c16Features(ctx, a)
 		ctx.Add("c16.resolve", a)
 	}
 }
@@ -363,6 +497,14 @@ func c16RandomLoad(ctx *core.Ctx) {
 		}
 		if a.SkipResolveEnvironment {
 			ctx.Count("load-skip-resolve-environment")
+		}
+		for _, s := range a.Services {
+			switch {
+			case s.YLabels != nil && s.YLabels.List != nil:
+				ctx.Count("load-labels-sequence-form")
+			case s.YLabels != nil:
+				ctx.Count("load-labels-mapping-with-nulls")
+			}
 		}
 		ctx.Add("c16.load", a)
 	}
